@@ -394,11 +394,26 @@ class Executor:
         pre_cache = w.cache_json()
         pre_class = w.cache_class()
         obs = w.scan(nonce, fault=fault, spelling=op.get("spelling"), verbose=op.get("verbose", False),
-                     set_policy=self.set_policy, walk_policy=self.walk_policy, env=op.get("env"))
+                     set_policy=self.set_policy, walk_policy=self.walk_policy, env=op.get("env"),
+                     read_fault=op.get("read_fault"))
         raw = w.cache_bytes()
         C = w.cache_json()
         if raw is not None:
             obs["report_digest"] = hashlib.md5(w.norm(raw.decode("utf-8", "replace")).encode()).hexdigest()
+        if op.get("read_fault") and obs.get("fault_fired") is not None:
+            # an injected read error may fail the scan, never make it succeed with a wrong report
+            self.probe("scan_read_fault_" + obs["outcome"])
+            if obs["outcome"] == "ok":
+                from .props import common
+                common.after_read_faulted_scan(self, idx, op, obs, C)
+            elif obs["outcome"] != "io_error":
+                self.add(violation("C03", "read_fault_fails_only_as_injected", "scan with EIO on reading %s ended %s %s %s" % (
+                    obs["fault_fired"]["path"], obs["outcome"], obs.get("exc", ""), obs.get("msg", "")), idx, obs))
+            self.cache_owner = None
+            self.last_scan_report = None
+            if self.wl in ("C09", "C10"):
+                self.pending_fault = {"op": "scan_read_fault", **obs["fault_fired"]}
+            return obs
         faulted = fault is not None and obs.get("fault_fired") is not None
         if faulted:
             self.pending_fault = {"op": "scan_fault", **obs["fault_fired"]}
